@@ -20,7 +20,7 @@ def _one(n):
     a = _ARGS
     prods = a['prods']
     try:
-        r = gprod.analyze(n, prods[n], summaries=a['summaries'], nonnullable=a['nonnullable'], max_paths=a['max_paths'], time_cap=a['time_cap'])
+        r = gprod.analyze(n, prods[n], summaries=a['summaries'], nonnullable=a['nonnullable'], hard_failing=a.get('hard', ()), max_paths=a['max_paths'], time_cap=a['time_cap'])
     except Inconclusive as e:
         return {'name': n, 'status': 'inconclusive', 'msg': str(e)[:300]}
     except Exception as e:
@@ -30,16 +30,16 @@ def _one(n):
         q = {'outcome': p['outcome'], 'ok': p.get('ok'), 'effect': list(p['effect']) if p.get('effect') else None,
              'prefix_kept': p.get('stack_prefix_kept'), 'pushed': p.get('pushed'),
              'v1_bad': p.get('v1_bad'), 'v1_intervals': p.get('v1_intervals'), 'p_out': p.get('p_out'), 'nullable': p.get('nullable'),
-             'eof': p.get('eof'), 'log': p.get('log'), 'kw_called': p.get('kw_called'), 'kw_true_on_ok': p.get('kw_true_on_ok'),
+             'eof': p.get('eof'), 'failure': p.get('failure'), 'log': p.get('log'), 'kw_called': p.get('kw_called'), 'kw_true_on_ok': p.get('kw_true_on_ok'),
              'obligations': p.get('obligations'), 'panic': p.get('panic'), 'model': p.get('model')}
         paths.append(q)
     return {'name': n, 'status': 'ok', 'paths': paths, 'truncated': r['truncated'], 'queries': r['queries'], 'solver_s': r['solver_s'],
             'steps': r['steps'], 'wall': r['wall'], 'models': r['models']}
 
 
-def _round(names, prods, summaries, nonnullable, max_paths, time_cap):
+def _round(names, prods, summaries, nonnullable, max_paths, time_cap, hard=()):
     global _ARGS
-    _ARGS = {'prods': prods, 'summaries': summaries, 'nonnullable': nonnullable, 'max_paths': max_paths, 'time_cap': time_cap}
+    _ARGS = {'prods': prods, 'summaries': summaries, 'nonnullable': nonnullable, 'max_paths': max_paths, 'time_cap': time_cap, 'hard': hard}
     ctx = mp.get_context('fork')
     out = {}
     if len(names) <= 2 or os.environ.get('VERIF_SERIAL'):
@@ -52,6 +52,29 @@ def _round(names, prods, summaries, nonnullable, max_paths, time_cap):
             out[r['name']] = r
             if dbg:
                 print('[grun] done %s (%d/%d) %.1fs' % (r['name'], len(out), len(names), r.get('wall', 0)), file=sys.stderr, flush=True)
+    return out
+
+
+def _one_null(n):
+    a = _ARGS
+    try:
+        return n, gprod.is_nullable(n, a['prods'][n], a['nonnullable'], a.get('hard', ()), a['summaries'])
+    except Exception as e:
+        return n, None
+
+
+def _round_null(names, prods, summaries, nonnullable, hard):
+    global _ARGS
+    _ARGS = {'prods': prods, 'summaries': summaries, 'nonnullable': nonnullable, 'hard': hard}
+    out = {}
+    if len(names) <= 2 or os.environ.get('VERIF_SERIAL'):
+        for n in names:
+            out[n] = _one_null(n)[1]
+        return out
+    ctx = mp.get_context('fork')
+    with ctx.Pool(min(16, os.cpu_count() or 4)) as pool:
+        for n, v in pool.imap_unordered(_one_null, names, chunksize=4):
+            out[n] = v
     return out
 
 
@@ -104,28 +127,40 @@ def run_grammar(tier='quick', only=None):
         if redo:
             results.update(_round(redo, prods, summaries, None, max_paths, time_cap))
             rounds.append({'round': 'effects', 'analysed': len(redo), 'names': redo[:10]})
-    # non-nullability fixpoint (optimistic set grows monotonically)
-    def nullable_set(res):
-        s = set()
-        for n, r in res.items():
-            if r['status'] != 'ok' or any(p.get('nullable') for p in r['paths'] if p['outcome'] == 'ok' and p['ok']):
-                s.add(n)
-        return s
-    nullable = nullable_set(results)
-    for it in range(30):
-        nonnull = set(results) - nullable
-        redo = sorted(nullable & set(names))
+    # productions that can return nom::Err::Failure (cut): propagated to callers until stable
+    hard = set()
+    for it in range(10):
+        new_hard = {n for n, r in results.items() if r['status'] == 'ok' and any(p.get('failure') for p in r['paths'] if p['outcome'] == 'ok')}
+        if new_hard <= hard:
+            break
+        hard |= new_hard
+        redo = sorted((callers_of(results, hard) - hard) & set(names))
         if not redo:
             break
-        upd = _round(redo, prods, summaries, nonnull | (set(prods) - set(names) if only else set()), max_paths, time_cap)
-        results.update(upd)
-        new_nullable = nullable_set(results)
-        rounds.append({'round': 'nullability-%d' % it, 'analysed': len(redo), 'nullable_after': len(new_nullable)})
-        print('[grun] nullability round %d: re-analysed %d, nullable now %d (%.0fs)' % (it, len(redo), len(new_nullable), time.time() - t0), file=sys.stderr, flush=True)
+        results.update(_round(redo, prods, summaries, None, max_paths, time_cap, hard))
+        rounds.append({'round': 'hard-failure-%d' % it, 'analysed': len(redo), 'hard': sorted(hard)[:10]})
+    # non-nullability fixpoint: dedicated exploration that abandons a path once it provably consumed input
+    # (small and complete); only facts proven in earlier rounds are assumed for callees
+    nullable = set(names)
+    unknown = set()
+    for it in range(40):
+        nonnull = (set(prods) - nullable) if only is None else (set(prods) - set(names)) | (set(names) - nullable)
+        redo = sorted(nullable)
+        upd = _round_null(redo, prods, summaries, nonnull, hard)
+        new_nullable = {n for n, v in upd.items() if v is not False}
+        unknown = {n for n, v in upd.items() if v is None}
+        rounds.append({'round': 'nullability-%d' % it, 'analysed': len(redo), 'nullable_after': len(new_nullable), 'budget_exhausted': sorted(unknown)[:10]})
+        print('[grun] nullability round %d: analysed %d, possibly nullable %d, budget exhausted %d (%.0fs)' % (it, len(redo), len(new_nullable), len(unknown), time.time() - t0), file=sys.stderr, flush=True)
         if new_nullable == nullable:
             break
         nullable = new_nullable
-    out = {'results': results, 'summaries': {k: {a: list(b) for a, b in v.items()} for k, v in summaries.items()}, 'nullable': sorted(nullable),
+    # final V1 pass of the productions whose obligations depend on non-nullability of callees
+    nonnull = set(prods) - nullable
+    redo = sorted(n for n, r in results.items() if n in names and r['status'] == 'ok' and any(p.get('v1_bad') for p in r['paths']))
+    if redo:
+        results.update(_round(redo, prods, summaries, nonnull, max_paths, time_cap, hard))
+        rounds.append({'round': 'v1-with-nonnullability', 'analysed': len(redo)})
+    out = {'hard_failing': sorted(hard), 'results': results, 'summaries': {k: {a: list(b) for a, b in v.items()} for k, v in summaries.items()}, 'nullable': sorted(nullable), 'nullability_unknown': sorted(unknown),
            'rounds': rounds, 'wall': round(time.time() - t0, 1), 'tier': tier, 'cached': False, 'n_productions': len(names)}
     if only is None:
         try:
